@@ -51,6 +51,9 @@ type scen struct {
 	// Pair: a second request ({name}) is served concurrently by the same server; both
 	// streams must be well-framed and carry their own payloads
 	Pair bool `json:"pair,omitempty"`
+	// Sequel: once the handler has returned, the SAME request is served again by the same
+	// server; nothing of the second request may reach the first one's ResponseWriter
+	Sequel bool `json:"sequel,omitempty"`
 }
 
 type inst struct {
@@ -164,6 +167,16 @@ func (in *inst) Body() {
 	in.handlerDone = true
 	in.lateWrites = len(in.rw.Writes)
 	cancel() // net/http cancels the request context once the handler has returned
+	if in.sc.Sequel {
+		in.rw2 = rig.NewRW()
+		in.log2 = &handschema.Log{}
+		ctx2, cancel2 := context.WithCancel(context.Background())
+		r2 := httptest.NewRequest("POST", "/query", bytes.NewReader(body)).WithContext(handschema.WithLog(ctx2, in.log2))
+		r2.Header.Set("Accept", accept)
+		r2.Header.Set("Content-Type", "application/json")
+		srv.ServeHTTP(in.rw2, r2)
+		cancel2()
+	}
 }
 
 func (in *inst) Obs() string {
@@ -204,7 +217,7 @@ func (in *inst) Check(x *explore.Exec) (string, string) {
 	} else {
 		sig, msg = in.checkMixed()
 	}
-	if sig == "" && in.sc.Pair && in.rw2 != nil {
+	if sig == "" && (in.sc.Pair || in.sc.Sequel) && in.rw2 != nil {
 		// judge the second stream with the same parsers
 		other := &inst{sc: in.sc, rw: in.rw2, log: in.log2, handlerDone: true}
 		other.lateWrites = len(in.rw2.Writes)
@@ -462,8 +475,11 @@ func scenarios(tier string) []*explore.Scenario {
 		if s.Pair {
 			name += " pair"
 		}
+		if s.Sequel {
+			name += " sequel"
+		}
 		var bound *int
-		if s.Pair {
+		if s.Pair || s.Sequel {
 			// two whole requests interleave: explored with fewer deviations
 			b := 2
 			if tier == "thorough" {
@@ -507,6 +523,10 @@ func scenarios(tier string) []*explore.Scenario {
 	add(scen{Transport: "mixed", Query: "{a name}", Payloads: 2, Paths: true})
 	add(scen{Transport: "mixed", Query: "{a name}", Payloads: 3, Paths: true})
 	// two streams served concurrently by one server
+	// the same request twice in a row on one server (keep-alive timers of the first are still around)
+	add(scen{Transport: "sse", Query: "subscription{s2}", Payloads: 1, KeepAlive: true, Sequel: true})
+	add(scen{Transport: "sse", Query: "{a name}", KeepAlive: true, Sequel: true})
+	add(scen{Transport: "mixed", Query: "{a name}", Payloads: 1, Sequel: true})
 	add(scen{Transport: "sse", Query: "{a name}", Pair: true})
 	add(scen{Transport: "sse", Query: "subscription{s2}", Payloads: 1, Pair: true})
 	add(scen{Transport: "mixed", Query: "{a name}", Payloads: 1, Pair: true})
